@@ -10,7 +10,9 @@ import (
 	"github.com/bufbuild/protocompile"
 	"github.com/bufbuild/protocompile/linker"
 	"github.com/bufbuild/protocompile/reporter"
+	"google.golang.org/protobuf/reflect/protodesc"
 	"google.golang.org/protobuf/reflect/protoreflect"
+	"google.golang.org/protobuf/reflect/protoregistry"
 	"pgregory.net/rapid"
 
 	"verif/harness/ev"
@@ -31,8 +33,10 @@ type symFile struct {
 }
 
 type c17Case struct {
-	Pool []symFile
-	Ops  []int // index into Pool: import that file (again)
+	Pool    []symFile
+	Ops     []int  // index into Pool: import that file (again)
+	Generic bool   // import plain protoreflect descriptors (protodesc.NewFile) instead of the linker's results
+	Lenient []bool // per op: the reporter accepts every error (returns nil) instead of failing fast
 }
 
 // genSymPool draws small files over few packages, names and extension numbers so that collisions are common.
@@ -58,7 +62,9 @@ func genSymPool(t *rapid.T, n int) []symFile {
 			case 0:
 				fmt.Fprintf(&sb, "message %s { optional int32 x = 1; }\n", name)
 			case 1:
-				vn := strings.ToUpper(name) + gen.Pick(t, []string{"_V", "_W"}, "vname")
+				// enum values live in the scope that encloses the enum: a value may be named like an element
+				// that another file of the package declares
+				vn := gen.Pick(t, []string{strings.ToUpper(name) + "_V", strings.ToUpper(name) + "_W", "A", "B", "C", "q"}, "vname")
 				if !used[vn] {
 					used[vn] = true
 					fmt.Fprintf(&sb, "enum %s { %s = 0; }\n", name, vn)
@@ -236,9 +242,44 @@ func c17Check(c c17Case, r *ev.Rec) error {
 		extUniverse[[2]string{"p.Ext", tag}] = true
 		extUniverse[[2]string{"p.Ext2", tag}] = true
 	}
+	// what is handed to Import: the linker's own results, or plain descriptors built from their protos
+	var baseFD protoreflect.FileDescriptor = base
+	fds := make([]protoreflect.FileDescriptor, len(files))
+	for i, f := range files {
+		if f != nil {
+			fds[i] = f
+		}
+	}
+	if c.Generic {
+		g, err := protodesc.NewFile(fdProto(base), nil)
+		if err != nil {
+			return fmt.Errorf("protodesc.NewFile(base): %v", err)
+		}
+		baseFD = g
+		reg := &protoregistry.Files{}
+		if err := reg.RegisterFile(g); err != nil {
+			return err
+		}
+		for i, f := range files {
+			if f == nil {
+				continue
+			}
+			gf, err := protodesc.NewFile(fdProto(f), reg)
+			if err != nil {
+				return fmt.Errorf("protodesc.NewFile(%s): %v", c.Pool[i].Name, err)
+			}
+			fds[i] = gf
+		}
+	}
+	handlerFor := func(step int) *reporter.Handler {
+		if step < len(c.Lenient) && c.Lenient[step] {
+			return reporter.NewHandler(reporter.NewReporter(func(reporter.ErrorWithPos) error { return nil }, nil))
+		}
+		return reporter.NewHandler(nil)
+	}
 	syms := &linker.Symbols{}
 	model := &symModel{syms: map[string]bool{}, exts: map[[2]string]bool{}, imported: map[int]bool{}}
-	if err := syms.Import(base, reporter.NewHandler(nil)); err != nil {
+	if err := syms.Import(baseFD, reporter.NewHandler(nil)); err != nil {
 		return fmt.Errorf("importing the base file failed: %v", err)
 	}
 	model.add(baseInfo)
@@ -271,7 +312,7 @@ func c17Check(c c17Case, r *ev.Rec) error {
 		if f == nil {
 			continue
 		}
-		err := syms.Import(f, reporter.NewHandler(nil))
+		err := syms.Import(fds[op], handlerFor(step))
 		want := ""
 		if !model.imported[op] {
 			want = model.collides(infos[op])
@@ -358,13 +399,14 @@ func sortedExts(m map[[2]string]bool) [][2]string {
 
 func TestC17_History(t *testing.T) {
 	ev.Run(t, ev.Spec[c17Case]{ID: "C17", Name: "History", Quick: 800, Thorough: 40000,
-		Rule: "a pool of 2-5 small files over packages {none, p, p.q, r, p.A} declaring messages/enums/services named A, B, q, C and extensions of two shared messages with tags 1-3 (so name, package-vs-element and extension-number collisions are common), each compiled separately against one shared base file; a history of 2-10 imports (with re-imports) into ONE Symbols table; oracle: a reference table (map of names and extension numbers, updated only on successful imports) predicts whether each import collides, and after EVERY step Lookup of every name in the universe and LookupExtension of every (message, tag) agree with the reference table - in particular a failed import adds nothing and fails again when repeated; non-trivial = a failed import followed by lookups and by a re-import of the same file; distinct by pool+history",
+		Rule: "a pool of 2-5 small files over packages {none, p, p.q, r, p.A} declaring messages/enums/services named A, B, q, C and extensions of two shared messages with tags 1-3 (so name, package-vs-element and extension-number collisions are common), each compiled separately against one shared base file; a history of 2-10 imports (with re-imports) into ONE Symbols table, handing Import either the linker's own results or plain descriptors built with protodesc.NewFile, each import with a fail-fast or an accept-everything reporter; enum values may be named like another file's element; oracle: a reference table (map of names and extension numbers, updated only on successful imports) predicts whether each import collides, and after EVERY step Lookup of every name in the universe and LookupExtension of every (message, tag) agree with the reference table - in particular a failed import adds nothing and fails again when repeated; non-trivial = a failed import followed by lookups and by a re-import of the same file; distinct by pool+history",
 		Gen: func(t *rapid.T) c17Case {
 			n := 2 + gen.Uniform(t, 4, "npool")
-			c := c17Case{Pool: genSymPool(t, n)}
+			c := c17Case{Pool: genSymPool(t, n), Generic: gen.Pct(t, 35, "generic")}
 			nops := 2 + gen.Uniform(t, 9, "nops")
 			for i := 0; i < nops; i++ {
 				c.Ops = append(c.Ops, gen.Uniform(t, n, "op"))
+				c.Lenient = append(c.Lenient, gen.Pct(t, 30, "lenient"))
 			}
 			return c
 		},
